@@ -396,10 +396,76 @@ func runC07(c *kit.Ctx) {
 				if lk, ok := kit.Strip(s.ia.Index).(*ssa.Lookup); ok {
 					if l, ok := kit.Root(lk.Index).(*ssa.UnOp); ok {
 						if eia, ok := l.X.(*ssa.IndexAddr); ok {
+							// the same loop written with an explicit counter: for i := low; i < len(S); i++
+							if cnt, ok := kit.Strip(eia.Index).(*ssa.Phi); ok {
+								if _, isSl := eia.X.(*ssa.Slice); !isSl {
+									var init ssa.Value
+									inc, bounded := false, false
+									for _, e := range cnt.Edges {
+										if bo, ok := e.(*ssa.BinOp); ok && bo.Op == token.ADD && bo.X == ssa.Value(cnt) {
+											inc = true
+											continue
+										}
+										init = e
+									}
+									for _, r := range kit.Referrers(cnt) {
+										if cmp, ok := r.(*ssa.BinOp); ok && cmp.Op == token.LSS && cmp.X == ssa.Value(cnt) {
+											if ln := kit.LenOf(kit.Root(cmp.Y)); ln != nil && kit.Same(ln, eia.X) {
+												bounded = true
+											}
+										}
+									}
+									if inc && bounded && init != nil && len(cnt.Edges) == 2 {
+										seen := map[ssa.Value]bool{}
+										var lowOK func(v ssa.Value, pred *ssa.BasicBlock) bool
+										lowOK = func(v ssa.Value, pred *ssa.BasicBlock) bool {
+											if pred != nil {
+												for _, st := range selectArmsAt(pred) {
+													if dc, ok := kit.Root(st.Chan).(*ssa.Call); ok && kit.CalleeName(dc) == ctxDone && sameContext(dc.Call.Value, y) {
+														return true
+													}
+												}
+											}
+											if ph, ok := v.(*ssa.Phi); ok {
+												if seen[ph] {
+													return true
+												}
+												seen[ph] = true
+												for i, e := range ph.Edges {
+													if !lowOK(e, ph.Block().Preds[i]) {
+														return false
+													}
+												}
+												return true
+											}
+											if ln := kit.LenOf(v); ln != nil && kit.Same(ln, eia.X) {
+												return true
+											}
+											if pred == nil {
+												return false
+											}
+											for _, st := range selectArmsAt(pred) {
+												if dc, ok := kit.Root(st.Chan).(*ssa.Call); ok && kit.CalleeName(dc) == ctxDone && sameContext(dc.Call.Value, y) {
+													return true
+												}
+											}
+											return false
+										}
+										good = lowOK(init, nil)
+									}
+								}
+							}
 							if sl, ok := eia.X.(*ssa.Slice); ok && sl.Low != nil && sl.High == nil {
 								seen := map[ssa.Value]bool{}
 								var lowOK func(v ssa.Value, pred *ssa.BasicBlock) bool
 								lowOK = func(v ssa.Value, pred *ssa.BasicBlock) bool {
+									if pred != nil {
+										for _, st := range selectArmsAt(pred) {
+											if dc, ok := kit.Root(st.Chan).(*ssa.Call); ok && kit.CalleeName(dc) == ctxDone && sameContext(dc.Call.Value, y) {
+												return true
+											}
+										}
+									}
 									if ph, ok := v.(*ssa.Phi); ok {
 										if seen[ph] {
 											return true
@@ -557,6 +623,9 @@ func successFlag(c *kit.Ctx, sb *ssa.Function, batchParam *ssa.Parameter) {
 				ns++
 				ph, ok := s.Val.(*ssa.Phi)
 				pres := false
+				if kc, isC := s.Val.(*ssa.Const); isC && kc.Value != nil && kc.Value.ExactString() == "true" {
+					pres = true // if x { flag = true }
+				}
 				if ok {
 					for k, e := range ph.Edges {
 						if kc, ok := e.(*ssa.Const); ok && kc.Value != nil && kc.Value.ExactString() == "true" {
